@@ -218,6 +218,7 @@ structure Case where
   hdr : List (Bytes × Bytes)
   calls : List Call
   uri : Option Bytes := none   -- ProcessURI(uri, "GET", "HTTP/1.1") before the Add* calls
+  rhdr : List (Bytes × Bytes) := []   -- AddResponseHeader calls (made before the first Process* call)
 
 def parseCase (s : String) (rxm : RxMode := .code) : Except String Case := do
   let j ← Json.parse s
@@ -236,14 +237,15 @@ def parseCase (s : String) (rxm : RxMode := .code) : Except String Case := do
   let resp := match j.getObjValAs? String "resp" with | .ok s => (Bytes.ofField s).getD [] | _ => []
   let parts := match j.getObjValAs? String "parts" with | .ok s => (Bytes.ofField s).getD [] | _ => []
   let uri := match j.getObjValAs? String "uri" with | .ok s => Bytes.ofField s | _ => none
-  pure { ae := ae, rs := rs, resp := resp, parts := parts, mode := mode, rules := rules, cfgErr := cfgErr, get := get, post := post, hdr := hdr, calls := calls, uri := uri }
+  let rhdr ← match j.getObjVal? "rhdr" with | .ok _ => parsePairs j "rhdr" | _ => pure []
+  pure { rhdr := rhdr, ae := ae, rs := rs, resp := resp, parts := parts, mode := mode, rules := rules, cfgErr := cfgErr, get := get, post := post, hdr := hdr, calls := calls, uri := uri }
 
 def initTx (c : Case) : Tx :=
   let tx0 := newTx c.mode {} c.ae c.parts
   let tx1 := match c.uri with
     | some u => processURI tx0 u (Bytes.ofString "GET")
     | none => tx0
-  { feed tx1 c.get c.post c.hdr with respCode := c.resp }
+  { feed tx1 c.get c.post c.hdr c.rhdr with respCode := c.resp }
 
 /-! ### canonical rendering (must match go/cmd/corr/eng.go) -/
 
@@ -299,7 +301,7 @@ def outsideModel (c0 : Case) : Bool :=
     | some u => (u, u) :: Coraza.Decode.parseQuery ((cut1 0x3f (cut1 0x23 u).1).2.getD [])
     | none => []
   let uriOut := match c0.uri with | some u => !uriInFragment u | none => false
-  let c : Case := { c0 with get := uriArgs ++ c0.get }
+  let c : Case := { c0 with get := uriArgs ++ c0.get, hdr := c0.hdr ++ c0.rhdr }
   uriOut ||
   let nonAscii (ps : List (Bytes × Bytes)) := ps.any fun p => !(p.1.all isAscii && p.2.all isAscii)
   let nonAsciiKey (ps : List (Bytes × Bytes)) := ps.any fun p => !p.1.all isAscii
